@@ -144,6 +144,37 @@ RatSub(a, b) == <<a[1] * b[2] - b[1] * a[2], a[2] * b[2]>>
 WidthDef(w, k) == RatSub(IndexOfFractionDef(w, 10 + k, 20), IndexOfFractionDef(w, 10 - k, 20))          \* f = k / 10
 DecileDef(w, k) == RatSub(IndexOfFractionDef(w, k, 10), IndexOfFractionDef(w, 1, 2))
 
+(* ------------------------------- highest density region -------------------------------
+   highest_density_region(w, fractions) (only_upper_part = False): the region for fraction f = p/q is the smallest "top set" of
+   samples whose area reaches f of the total A: the top sets are, for every value v below the maximum, the samples above v
+   (whole level sets), preceded - when the maximum occurs more than once - by the single last sample holding the maximum (the
+   first element of the code's descending stable order); if no top set short of everything reaches f, the whole waveform.
+   The region is reported as maximal runs [left, right) of 0-based indices; its amplitude is (area of the region - f * A) / size. *)
+AreaOf(w, S) == SumSeq([i \in 1..Len(w) |-> IF i \in S THEN w[i] ELSE 0])
+TopSet(w, v) == {i \in 1..Len(w) : w[i] > v}
+HDRCandidates(w) == LET mx == Max({w[i] : i \in 1..Len(w)})
+                        dup == Cardinality({i \in 1..Len(w) : w[i] = mx}) > 1
+                    IN (IF dup THEN {{Max({i \in 1..Len(w) : w[i] = mx})}} ELSE {})
+                       \cup {TopSet(w, v) : v \in {w[i] : i \in 1..Len(w)} \ {mx}}
+HDRSet(w, p, q) == LET ok == {S \in HDRCandidates(w) : Cardinality(S) < Len(w) /\ q * AreaOf(w, S) >= p * SumSeq(w)}
+                   IN IF ok = {} THEN 1..Len(w) ELSE CHOOSE S \in ok : \A T \in ok : Cardinality(S) <= Cardinality(T)
+RECURSIVE RunsOf(_, _, _)
+\* maximal runs of S as <<left, right>> with 0-based left and exclusive right, scanning i = 1..n+1
+RunsOf(S, i, open) ==      \* open = 0: no run open, else the (1-based) start of the open run
+  LET n == Max(S) IN
+  IF i > n + 1 THEN <<>>
+  ELSE IF i \in S THEN RunsOf(S, i + 1, IF open = 0 THEN i ELSE open)
+       ELSE (IF open = 0 THEN <<>> ELSE << <<open - 1, i - 1>> >>) \o RunsOf(S, i + 1, 0)
+HDRDef(w, p, q) == LET S == HDRSet(w, p, q) IN
+                   [intervals |-> RunsOf(S, 1, 0), amp |-> <<q * AreaOf(w, S) - p * SumSeq(w), q * Cardinality(S)>>]
+\* defining laws: the region holds at least the fraction, nothing outside is denser than anything inside, and without its lowest
+\* level it would hold less than the fraction
+HDRLaws(w, p, q) == LET S == HDRSet(w, p, q) m == Min({w[i] : i \in S}) IN
+  /\ q * AreaOf(w, S) >= p * SumSeq(w)
+  /\ \A i \in S : \A j \in (1..Len(w)) \ S : w[i] >= w[j]
+  /\ q * AreaOf(w, {i \in S : w[i] > m}) < p * SumSeq(w) \/ p = 0
+HDRFracs == << <<1, 4>>, <<1, 2>>, <<3, 4>>, <<9, 10>> >>
+
 (* ------------------------------- case enumeration ------------------------------- *)
 VARIABLE c
 HitSet == {<<t, l, ch, ar>> \in (0..G) \X (1..2) \X (0..1) \X (1..2) : TRUE}
@@ -160,6 +191,7 @@ Init == \/ Kind = "findpeaks" /\ c \in SortedHits \ {<<>>}
                                                                                   [k \in 1..NH |-> IF k > 2 THEN 2 ELSE 0]}}
         \/ Kind = "widths" /\ c \in {w \in WaveSet : SumSeq(w) > 0}
         \/ Kind = "splitobs" /\ c \in 1..Len(SplitObs)
+        \/ Kind = "hdr" /\ c \in {w \in WaveSet : Len(w) >= 2 /\ SumSeq(w) > 0}
 Spec == Init /\ [][UNCHANGED c]_c
 
 Params == << <<3, <<0, 0>>, 1000>>, <<2, <<0, 1>>, 1000>>, <<4, <<1, 2>>, 1000>>, <<3, <<1, 1>>, 6>>, <<5, <<2, 2>>, 1000>> >>
@@ -171,6 +203,7 @@ Laws == CASE Kind = "findpeaks" -> \A k \in 1..Len(Params) : PeakLaws(c, Params[
                                  /\ Len(r) = Len(c) - (w[2] - w[1]) + 1
           [] Kind = "split" -> \A k \in 1..Len(SplitParams) : TilesParent(Len(c), LocalMinSplits(c, SplitParams[k][1], SplitParams[k][2]))
           [] Kind = "splitobs" -> ObsTiles(SplitObs[c])
+          [] Kind = "hdr" -> \A k \in 1..Len(HDRFracs) : HDRLaws(c, HDRFracs[k][1], HDRFracs[k][2])
           [] Kind = "sumwf" -> \A win \in PeakWindowsOf(c) : \A nb \in {2, 3, NH} : SumWfLaws(c, win[1], win[2], nb)
           [] OTHER -> TRUE
 Fracs == << <<0, 1>>, <<1, 10>>, <<1, 4>>, <<1, 2>>, <<3, 4>>, <<9, 10>>, <<1, 1>> >>
@@ -192,6 +225,7 @@ Out ==
                          [recs |-> c, windows |-> ws, nbs |-> <<2, 3, NH>>,
                           out |-> [i \in 1..Len(ws) |-> [j \in 1..3 |-> SumWfDef(c, ws[i][1], ws[i][2], <<2, 3, NH>>[j])]]]
     [] Kind = "splitobs" -> [tid |-> c]
+    [] Kind = "hdr" -> [w |-> c, fracs |-> HDRFracs, hdr |-> [k \in 1..Len(HDRFracs) |-> HDRDef(c, HDRFracs[k][1], HDRFracs[k][2])]]
     [] Kind = "widths" -> [w |-> c, width |-> [k \in 0..10 |-> WidthDef(c, k)], decile |-> [k \in 0..10 |-> DecileDef(c, k)]]
 Emit == PrintT(ToJson(Out))
 =============================================================================
